@@ -134,8 +134,32 @@ theorem auth_fill2' (auth aad lastB lenB : Bytes) (ha : auth.length = aad.length
         List.drop (aad.length + 4) auth)) lenB = aad ++ lastB ++ lenB :=
   auth_fill2 auth aad lastB lenB ha hp h1 h2
 
+/-- the two per-chunk fields written with ONE `copy_from_slice` of the 8 bytes `tail` (`auth_data[aad.len()..]`), after the
+    AAD prefix has been (re)written -/
+theorem auth_fill1' (auth aad tail : Bytes) (ha : auth.length = aad.length + 8) (ht : tail.length = 8) :
+    List.take aad.length (Rs.copyFromSlice (List.take aad.length auth) aad ++ List.drop aad.length auth) ++
+      Rs.copyFromSlice (List.drop aad.length (Rs.copyFromSlice (List.take aad.length auth) aad ++ List.drop aad.length auth)) tail
+      = aad ++ tail := by
+  rw [auth_prefix auth aad ha, List.take_left' rfl, List.drop_left' rfl,
+    copyFromSlice_eq _ _ (by rw [List.length_drop]; omega)]
+
+/-- the same on a buffer that already starts with the AAD -/
+theorem auth_fill1s' (auth aad tail : Bytes) (ha : auth.length = aad.length + 8) (hp : auth.take aad.length = aad)
+    (ht : tail.length = 8) :
+    List.take aad.length auth ++ Rs.copyFromSlice (List.drop aad.length auth) tail = aad ++ tail := by
+  rw [hp, copyFromSlice_eq _ _ (by rw [List.length_drop]; omega)]
+
+/-- normal form for "two adjacent fields of a buffer": `x ++ l[b..b+a] ++ l[b+a..]` is `x ++ l[b..]`, whether the fields
+    were taken apart by indexing, by `split_at`, or not at all -/
+theorem fields_join {α} (x l : List α) (a b c : Nat) (h : c = b + a) :
+    x ++ List.take a (List.drop b l) ++ List.drop c l = x ++ List.drop b l := by
+  subst h
+  rw [List.append_assoc, ← List.drop_drop, List.take_append_drop]
+
 theorem take_aad (aad x y : Bytes) : (aad ++ x ++ y).take aad.length = aad := by
   rw [List.append_assoc, List.take_left' rfl]
+
+theorem take_aad1 (aad x : Bytes) : (aad ++ x).take aad.length = aad := List.take_left' rfl
 
 /-- the state of `auth_data` when the loop is entered, whichever way the function prepares it: freshly allocated … -/
 theorem auth_init_weak (aad : Bytes) : (List.replicate (aad.length + 8) (0 : UInt8)).length = aad.length + 8 :=
